@@ -7,6 +7,7 @@ package openapi3
 
 import (
 	"errors"
+	"fmt"
 	"strings"
 )
 
@@ -228,18 +229,35 @@ func verifH_C19_discriminator() {
 	verifReach("end")
 }
 
-//verif:harness id=C19 tier=quick,thorough witness=end,rejected bounds="opt-in and user-defined string formats: ipv4 / ipv6 (DefineIPv4Format, DefineIPv6Format), a user regexp format (DefineStringFormat) and a user callback format whose own error is opaque; values = concrete texts chosen to fail each validator in each of its ways (not an address, the other address family, non-matching) plus a symbolic marker; modes as in the other C19 harnesses; no Reason and no reason-only Error() contains the value"
+//verif:harness id=C19 tier=quick,thorough witness=end,rejected bounds="opt-in and user-defined string formats: ipv4 / ipv6 (DefineIPv4Format, DefineIPv6Format), a user regexp format (DefineStringFormat) a user callback format whose own error is opaque, and two user callback formats built on NewIPValidator (its schema error wrapped with %w, or as the Origin of the user's own schema error); values = concrete texts chosen to fail each validator in each of its ways (not an address, the other address family, non-matching) plus a symbolic marker; modes as in the other C19 harnesses; no Reason and no reason-only Error() contains the value"
 func verifH_C19_optin_formats() {
 	verifMarkerReset()
 	DefineIPv4Format()
 	DefineIPv6Format()
 	DefineStringFormat("verif-re", `^[a-c]+$`)
 	DefineStringFormatCallback("verif-cb", func(string) error { return errors.New("rejected by callback") })
-	format := []string{"ipv4", "ipv6", "verif-re", "verif-cb"}[verifChoose("format", 4)]
+	// user formats built on the library's own validators: the library's schema error (which carries the value) arrives wrapped
+	DefineStringFormatCallback("verif-wrap", func(s string) error {
+		if err := NewIPValidator(true).Validate(s); err != nil {
+			return fmt.Errorf("not an address of the expected family: %w", err)
+		}
+		return nil
+	})
+	DefineStringFormatCallback("verif-either", func(s string) error {
+		err4 := NewIPValidator(true).Validate(s)
+		if err4 == nil {
+			return nil
+		}
+		if err6 := NewIPValidator(false).Validate(s); err6 != nil {
+			return &SchemaError{Value: s, Reason: "neither an IPv4 nor an IPv6 address", Origin: err6}
+		}
+		return nil
+	})
+	format := []string{"ipv4", "ipv6", "verif-re", "verif-cb", "verif-wrap", "verif-either"}[verifChoose("format", 6)]
 	var v string
 	switch k := verifChoose("value", 7); k {
 	case 0:
-		if format == "ipv4" || format == "ipv6" {
+		if format == "ipv4" || format == "ipv6" || format == "verif-wrap" || format == "verif-either" {
 			v = "~`~" // address parsing runs natively: concrete text only
 			verifMarkers = append(verifMarkers, v)
 		} else {
